@@ -108,7 +108,7 @@ func runSolo(c cast, tag string, mats []material) phaseOut {
 // every result with the solo result.
 func runConcurrent(c cast, tag string, solo [][]string, mats []material) phaseOut {
 	env := newEnv(tag+".conc", c)
-	out := phaseOut{env: env}
+	out := phaseOut{env: env, results: make([][]string, len(c.Workers))}
 	workers := make([]worker, len(c.Workers))
 	for i, ws := range c.Workers {
 		workers[i] = newWorker(ws, i, env, &mats[i])
@@ -138,7 +138,9 @@ func runConcurrent(c cast, tag string, solo [][]string, mats []material) phaseOu
 			}
 			for r := 0; r < ws.Reps; r++ {
 				got := runRep(w, r)
-				if want := solo[i][r]; got != want {
+				if solo == nil {
+					out.results[i] = append(out.results[i], got) // cold phase: compared once the solo phase has run
+				} else if want := solo[i][r]; got != want {
 					fail(fmt.Sprintf("worker %d (%s), repetition %d:\n    alone:      %s\n    concurrent: %s", i, ws, r, want, got))
 				}
 				vk.Progress()
@@ -176,6 +178,21 @@ func runCast(c cast, rounds int, announce bool) (string, castStats) {
 	var failure string
 	vk.Guard("C08 "+enc, func() {
 		mats := make([]material, len(c.Workers))
+		var cold phaseOut
+		if c.Cold {
+			// first use under concurrency: this concurrent phase runs before anything of the cast has run alone
+			if announce {
+				fmt.Printf("C08 cold concurrent phase of %s\n", enc)
+			}
+			prev := runtime.GOMAXPROCS(c.Procs)
+			cold = runConcurrent(c, tag+".cold", nil, mats)
+			runtime.GOMAXPROCS(prev)
+			st.rounds++
+			if len(cold.failures) > 0 {
+				failure = fmt.Sprintf("the cold concurrent phase (before any solo run, GOMAXPROCS %d) failed:\n  %s", c.Procs, strings.Join(cold.failures[:min(6, len(cold.failures))], "\n  "))
+				return
+			}
+		}
 		solo := runSolo(c, tag, mats)
 		if n := len(solo.failures); n > 0 {
 			if n > 6 {
@@ -183,6 +200,21 @@ func runCast(c cast, rounds int, announce bool) (string, castStats) {
 			}
 			failure = "a worker misbehaved already when run ALONE (one after the other, nothing else running; state left behind by an earlier worker, or a defect of the pipeline itself):\n  " + strings.Join(solo.failures, "\n  ")
 			return
+		}
+		if c.Cold {
+			var diffs []string
+			for i, ws := range c.Workers {
+				for r := range solo.results[i] {
+					if r < len(cold.results[i]) && cold.results[i][r] != solo.results[i][r] {
+						diffs = append(diffs, fmt.Sprintf("worker %d (%s), repetition %d:\n    alone (afterwards):            %s\n    concurrent (first use of all): %s", i, ws, r, solo.results[i][r], cold.results[i][r]))
+					}
+				}
+			}
+			if n := len(diffs); n > 0 {
+				failure = fmt.Sprintf("%d result(s) of the COLD concurrent phase (run before anything of the cast had run alone, GOMAXPROCS %d) differ from the same worker's solo run:\n  %s",
+					n, c.Procs, strings.Join(diffs[:min(6, n)], "\n  "))
+				return
+			}
 		}
 		if announce {
 			// the log must identify the cast if the race detector or a panic in one of kit's own goroutines kills the process
